@@ -35,5 +35,5 @@ func ParseString(s string) (interface{}, error) {
 }
 
 func JoinOptStrings(strs []string) ([]interface{}, error) {
-	return []interface{}{strings.Join(strs, "")}, nil
+	return []interface{}{strings.Join(strs, " ")}, nil
 }
